@@ -6,7 +6,7 @@ import struct
 
 from report import AnalysisError
 from pyfront import Repo, canon, TK
-from pyutil import rel, params
+from pyutil import rel, params, return_origins
 from consteval import Ev, fold, Unknown, Raised, EnumMember
 from layout import Enc, Dec, bitfields, byte_ref, PRESENT, fold_field
 from accept import Extractor
@@ -402,10 +402,34 @@ def r5_burst_len(L, repo, members):
               ["self.usbit2sbit(%s)" % PB], rets)
 
 
+def r6_ownership(L, repo):
+    """R6: the datagram returned by gen_msg() belongs to the caller. A message encoded earlier must still decode
+    to its own field values after any later encode, so gen_msg may not hand out storage that outlives the call
+    (a class/instance/module-level buffer)."""
+    n = 0
+    for cname in ("Msg", "TxMsg", "RxMsg"):
+        ci = repo.need_class("data_msg", cname)
+        c, m = repo.find_method(ci, "gen_msg")
+        if m is None:
+            raise AnalysisError("data_msg.%s.gen_msg vanished" % cname)
+        if c is not ci and cname != "Msg":
+            continue
+        L.fn(rel("data_msg"), "%s.gen_msg" % c.name)
+        for kind, node, text, ret in return_origins(repo, c, m):
+            n += 1
+            if kind == "unknown":
+                raise AnalysisError("gen_msg: origin of the returned value is not classifiable: %s" % text)
+            L.ob("C01.R6", rel("data_msg"), "%s.gen_msg" % c.name,
+                 "returned datagram originates from `%s`" % text, "storage created during the call",
+                 kind, kind == "fresh", line=getattr(ret, "lineno", None))
+    L.floor("C01.R6", "origins of gen_msg's return value", n, 1)
+
+
 def run(L, tier):
     repo = Repo(L.repo)
     L.unit(rel("gsm_shared"))
-    r1_r2(L, repo)
-    r3_tables(L, repo)
-    members = r4_mts(L, repo)
-    r5_burst_len(L, repo, members)
+    L.stage(r1_r2, L, repo)
+    L.stage(r3_tables, L, repo)
+    members = L.stage(r4_mts, L, repo)
+    L.stage(r5_burst_len, L, repo, members)
+    L.stage(r6_ownership, L, repo)
